@@ -27,9 +27,13 @@ SWEEP_QUICK_PER_CTX = 4096
 
 
 def mode_for(index, tier):
-    """Batch prefix = the header sweep; afterwards generated streams."""
+    """Batch prefix = the header sweep interleaved one to one with generated streams (so that a slow machine or a short
+    budget still sees both); afterwards generated streams only."""
     per_ctx = 65536 if tier == "thorough" else SWEEP_QUICK_PER_CTX
     total = per_ctx * len(CONTEXTS)
+    if index < 2 * total and index % 2 == 1:
+        return "gen"
+    index = index // 2 if index < 2 * total else total
     if index < total:
         ctx = index % len(CONTEXTS)
         k = index // len(CONTEXTS)
@@ -74,13 +78,18 @@ class World(WsWorld):
         else:
             cfg = {"server": ch.flag("server"), "deflate": ch.flag("deflate", 0.3), "failByDrop": ch.flag("failByDrop"),
                    "requireMasked": not ch.flag("noRequireMasked", 0.1), "acceptMasked": ch.flag("acceptMasked", 0.1),
-                   "utf8": not ch.flag("noUtf8", 0.1), "inside": False}
+                   "utf8": not ch.flag("noUtf8", 0.1), "inside": False,
+                   # automatic pings (no timeout: the scripted peer never answers them): the stream is then judged while
+                   # a ping of our own is outstanding
+                   "autoping": ch.flag("auto-ping", 0.15)}
         cfg.update(self.force)
         self.cfg = cfg
         is_server = cfg["server"]
         self.kind = "raw-server" if is_server else "raw-client"
         opts = dict(failByDrop=cfg["failByDrop"], utf8validateIncoming=cfg["utf8"], openHandshakeTimeout=0,
                     closeHandshakeTimeout=1)
+        if cfg.get("autoping"):
+            opts.update(autoPingInterval=150.0, autoPingTimeout=0, autoPingRestartOnAnyTraffic=ch.flag("ping-restart"))
         ext_req = b""
         ext_resp = b""
         if is_server:
@@ -488,6 +497,8 @@ class World(WsWorld):
             for suffix, sig, detail in n.monitor.errors:
                 run.violate(self.P + ".%s" % suffix, sig, "neighbour: " + detail)
         e = self.e
+        if self.cfg.get("autoping") and any(op == 9 for op, pl in e.monitor.controls):
+            run.probe("stream-judged-with-own-auto-ping-outstanding")
         ref = self.reference()
         got = self.got_deliveries()
         exp = ref.deliveries
